@@ -360,7 +360,11 @@ class PDFStandardSecurityHandler:
         self.init()
 
     def init(self) -> None:
-        self.init_params()
+        try:
+            self.init_params()
+        except KeyError as e:
+            error_msg = "Missing entry %s: param=%r" % (e, self.param)
+            raise PDFEncryptionError(error_msg)
         if self.r not in self.supported_revisions:
             error_msg = "Unsupported revision: param=%r" % self.param
             raise PDFEncryptionError(error_msg)
@@ -499,7 +503,7 @@ class PDFStandardSecurityHandlerV4(PDFStandardSecurityHandler):
             raise PDFEncryptionError(error_msg)
         self.cfm = {}
         for k, v in self.cf.items():
-            f = self.get_cfm(literal_name(v["CFM"]))
+            f = self.get_cfm(literal_name(dict_value(v)["CFM"]))
             if f is None:
                 error_msg = "Unknown crypt filter method: param=%r" % self.param
                 raise PDFEncryptionError(error_msg)
